@@ -108,14 +108,18 @@ def insertAsc (x : Nat) : List Nat → List Nat
 def sortAsc (l : List Nat) : List Nat := l.foldr insertAsc []
 
 def hexChar (d : Nat) : Char := "0123456789abcdef".toList.getD d '?'
-def hex4 (n : Nat) : String :=
-  String.ofList [hexChar (n / 4096 % 16), hexChar (n / 256 % 16), hexChar (n / 16 % 16), hexChar (n % 16)]
-def dec2 (n : Nat) : String := String.ofList [hexChar (n / 10 % 10), hexChar (n % 10)]
-def commaHex (l : List Nat) : String := ",".intercalate (l.map hex4)
+def hex4 (n : Nat) : Str :=
+  [hexChar (n / 4096 % 16), hexChar (n / 256 % 16), hexChar (n / 16 % 16), hexChar (n % 16)]
+def dec2 (n : Nat) : Str := [hexChar (n / 10 % 10), hexChar (n % 10)]
+/-- 4-digit hex values separated by commas -/
+def commaHex : List Nat → Str
+  | [] => []
+  | x :: r => hex4 x ++ r.flatMap (fun y => ',' :: hex4 y)
 
-def versionCode (v : Nat) : String :=
-  if v = 0x0304 then "13" else if v = 0x0303 then "12" else if v = 0x0302 then "11"
-  else if v = 0x0301 then "10" else if v = 0x0300 then "s3" else if v = 0x0002 then "s2" else "00"
+def versionCode (v : Nat) : Str :=
+  if v = 0x0304 then ['1', '3'] else if v = 0x0303 then ['1', '2'] else if v = 0x0302 then ['1', '1']
+  else if v = 0x0301 then ['1', '0'] else if v = 0x0300 then ['s', '3'] else if v = 0x0002 then ['s', '2']
+  else ['0', '0']
 
 def supportedVersionsOf : List Ext → Option (List Nat)
   | [] => none
@@ -168,17 +172,17 @@ def alpnChars (ch : ClientHello) : Option (Char × Char) :=
       if 2 ≤ p.length ∧ isAlnum f ∧ isAlnum l then some (Char.ofNat f.toNat, Char.ofNat l.toNat) else none
     | _, _ => none
 
-def sniFlag (ch : ClientHello) : String := if (ch.exts.any (fun x => x.type = 0)) then "d" else "i"
+def sniFlag (ch : ClientHello) : Str := if (ch.exts.any (fun x => x.type = 0)) then ['d'] else ['i']
 
 def cipherList (ch : ClientHello) : List Nat := noGrease ch.ciphers
 def extList (ch : ClientHello) : List Nat := noGrease (ch.exts.map Ext.type)
 def sigList (ch : ClientHello) : List Nat := noGrease (sigAlgsOf ch.exts)
 
-def partA (ch : ClientHello) : Option String :=
+def partA (ch : ClientHello) : Option Str :=
   match versionNumber ch, alpnChars ch with
   | some v, some (f, l) =>
-    some ("t" ++ versionCode v ++ sniFlag ch ++ dec2 (min (cipherList ch).length 99)
-      ++ dec2 (min (extList ch).length 99) ++ String.ofList [f, l])
+    some (['t'] ++ versionCode v ++ sniFlag ch ++ dec2 (min (cipherList ch).length 99)
+      ++ dec2 (min (extList ch).length 99) ++ [f, l])
   | _, _ => none
 
 def ciphersFor (sorted : Bool) (ch : ClientHello) : List Nat :=
@@ -186,34 +190,34 @@ def ciphersFor (sorted : Bool) (ch : ClientHello) : List Nat :=
 def extsFor (sorted : Bool) (ch : ClientHello) : List Nat :=
   if sorted then sortAsc ((extList ch).filter (fun t => t ≠ 0 ∧ t ≠ 16)) else extList ch
 
-def partB (sorted : Bool) (ch : ClientHello) : String := commaHex (ciphersFor sorted ch)
-def partC (sorted : Bool) (ch : ClientHello) : String :=
+def partB (sorted : Bool) (ch : ClientHello) : Str := commaHex (ciphersFor sorted ch)
+def partC (sorted : Bool) (ch : ClientHello) : Str :=
   let e := commaHex (extsFor sorted ch)
-  if (sigList ch).isEmpty then e else e ++ "_" ++ commaHex (sigList ch)
+  if (sigList ch).isEmpty then e else e ++ ['_'] ++ commaHex (sigList ch)
 
-def zeros12 : String := "000000000000"
-/-- first 12 hex digits of the digest -/
-def trunc12 (sha : Bytes → Bytes) (s : String) : String :=
-  String.ofList ((sha (strBytes s)).take 6 |>.flatMap (fun x => [hexChar (x.toNat / 16), hexChar (x.toNat % 16)]))
+def zeros12 : Str := List.replicate 12 '0'
+/-- first 12 hex digits of the digest (of the ASCII text) -/
+def trunc12 (sha : Bytes → Bytes) (s : Str) : Str :=
+  (sha (s.map (fun c => UInt8.ofNat c.toNat))).take 6 |>.flatMap (fun x => [hexChar (x.toNat / 16), hexChar (x.toNat % 16)])
 
-def hashB (sha : Bytes → Bytes) (sorted : Bool) (ch : ClientHello) : String :=
+def hashB (sha : Bytes → Bytes) (sorted : Bool) (ch : ClientHello) : Str :=
   if (ciphersFor sorted ch).isEmpty then zeros12 else trunc12 sha (partB sorted ch)
-def hashC (sha : Bytes → Bytes) (sorted : Bool) (ch : ClientHello) : String :=
+def hashC (sha : Bytes → Bytes) (sorted : Bool) (ch : ClientHello) : Str :=
   if (extsFor sorted ch).isEmpty then zeros12 else trunc12 sha (partC sorted ch)
 
 structure Ja4 where
-  ja4 : String      -- a_hash(b)_hash(c), sorted
-  ja4r : String     -- a_b_c, sorted
-  ja4o : String     -- original order, hashed
-  ja4ro : String    -- original order, raw
+  ja4 : Str      -- a_hash(b)_hash(c), sorted
+  ja4r : Str     -- a_b_c, sorted
+  ja4o : Str     -- original order, hashed
+  ja4ro : Str    -- original order, raw
   deriving DecidableEq, Repr, Inhabited
 
 def ja4 (sha : Bytes → Bytes) (ch : ClientHello) : Option Ja4 :=
   (partA ch).map fun a =>
-    { ja4 := a ++ "_" ++ hashB sha true ch ++ "_" ++ hashC sha true ch,
-      ja4r := a ++ "_" ++ partB true ch ++ "_" ++ partC true ch,
-      ja4o := a ++ "_" ++ hashB sha false ch ++ "_" ++ hashC sha false ch,
-      ja4ro := a ++ "_" ++ partB false ch ++ "_" ++ partC false ch }
+    { ja4 := a ++ ['_'] ++ hashB sha true ch ++ ['_'] ++ hashC sha true ch,
+      ja4r := a ++ ['_'] ++ partB true ch ++ ['_'] ++ partC true ch,
+      ja4o := a ++ ['_'] ++ hashB sha false ch ++ ['_'] ++ hashC sha false ch,
+      ja4ro := a ++ ['_'] ++ partB false ch ++ ['_'] ++ partC false ch }
 
 /-! ### the separately reported fields ("follow the bytes exactly") -/
 
@@ -238,25 +242,36 @@ def alpnField (ch : ClientHello) : Option Bytes :=
 /-! ### well-formedness (what "RFC-conformant" means here) -/
 
 def fits (n : Nat) (l : List Nat) : Prop := ∀ x ∈ l, x < n
+instance (n : Nat) (l : List Nat) : Decidable (fits n l) := by unfold fits; exact inferInstance
 
 /-- the six extension types this specification decodes -/
 def decodedTypes : List Nat := [0, 10, 11, 13, 16, 43]
 
 def Ext.WF (bodyOk : Nat → Bytes → Bool) : Ext → Prop
   | .serverName names =>
-      names ≠ [] ∧ (∀ n ∈ names, n.1 < 256 ∧ n.2.length < 65536) ∧ (names.flatMap encName).length < 65534
-      ∧ (∀ n ∈ names.head?, validUtf8 n.2 = true)
+      (∀ n ∈ names, n.1 < 256 ∧ n.2.length < 65536) ∧ (names.flatMap encName).length < 65534
+      ∧ (match names with | [] => False | n :: _ => validUtf8 n.2 = true)
   | .alpn ps => ps ≠ [] ∧ (∀ p ∈ ps, p.length < 256) ∧ (ps.flatMap vec8).length < 65534
   | .supportedVersions vs => vs ≠ [] ∧ fits 65536 vs ∧ vs.length < 128
   | .signatureAlgorithms xs => fits 65536 xs ∧ xs.length < 32767
   | .supportedGroups xs => fits 65536 xs ∧ xs.length < 32767
   | .ecPointFormats f => f.length < 256
   | .other t b => t < 65536 ∧ t ∉ decodedTypes ∧ b.length < 65536 ∧ bodyOk t b = true
+instance (bodyOk : Nat → Bytes → Bool) (x : Ext) : Decidable (x.WF bodyOk) := by
+  cases x with
+  | serverName names => unfold Ext.WF; cases names <;> exact inferInstance
+  | alpn _ => unfold Ext.WF; exact inferInstance
+  | supportedVersions _ => unfold Ext.WF; exact inferInstance
+  | signatureAlgorithms _ => unfold Ext.WF; exact inferInstance
+  | supportedGroups _ => unfold Ext.WF; exact inferInstance
+  | ecPointFormats _ => unfold Ext.WF; exact inferInstance
+  | other _ _ => unfold Ext.WF; exact inferInstance
 
 /-- RFC 8446 §4.2: "There MUST NOT be more than one extension of the same type" — needed here only
 for the six decoded types. -/
 def distinctDecoded (es : List Ext) : Prop :=
   ∀ t ∈ decodedTypes, ((es.map Ext.type).filter (· = t)).length ≤ 1
+instance (es : List Ext) : Decidable (distinctDecoded es) := by unfold distinctDecoded; exact inferInstance
 
 def ClientHello.WF (bodyOk : Nat → Bytes → Bool) (ch : ClientHello) : Prop :=
   ch.recordVersion < 65536 ∧ ch.legacyVersion < 65536 ∧ ch.random.length = 32 ∧ ch.sessionId.length ≤ 32
@@ -264,6 +279,8 @@ def ClientHello.WF (bodyOk : Nat → Bytes → Bool) (ch : ClientHello) : Prop :
   ∧ (∀ x ∈ ch.exts, x.WF bodyOk) ∧ distinctDecoded ch.exts
   ∧ (ch.exts.flatMap Ext.encode).length < 65536
   ∧ ch.handshake.length ≤ 16384     -- one TLSPlaintext fragment (RFC 8446 §5.1)
+instance (bodyOk : Nat → Bytes → Bool) (ch : ClientHello) : Decidable (ch.WF bodyOk) := by
+  unfold ClientHello.WF; exact inferInstance
 
 /-! ### known-finding classes of the unchanged tree -/
 end Huginn.Tls.Spec
